@@ -112,7 +112,7 @@ pub fn run_c06(o: &crate::Opts) {
         return;
     }
     let mut rng = Rng::new(o.seed.wrapping_mul(7919) ^ (o.shard as u64) << 32 ^ 0xC06);
-    let total: u64 = if o.thorough { 20_000 } else { 480 };
+    let total: u64 = if o.thorough { 12_000 } else { 480 };
     let per = total / o.nshards as u64;
     let mut n_prog = 0u64;
     let mut n_bytes = 0u64;
@@ -213,6 +213,13 @@ pub fn run_c06(o: &crate::Opts) {
             }
             args.extend_from_slice(&feat);
             outs.push(spawn(&dir, &args, &p.inp, 10000));
+        }
+        // a generated program that does not stop within the time-out is not a test of this
+        // property (the model answers `fuel`): skip it
+        if outs.iter().any(|o| o.status.is_none()) {
+            let _ = std::fs::remove_file(dir.join(&asm));
+            let _ = std::fs::remove_file(dir.join(&lc3));
+            continue;
         }
         if let Some(b) = &bytes {
             let req = format!(
